@@ -204,6 +204,7 @@ type caseRun struct {
 	timeout bool
 	aborted string
 	judgeC  bool
+	peeks   bool // residency reads of the real buffer (off under the race detector: they are unsynchronised by design)
 }
 
 func (c *caseRun) logf(format string, a ...any) {
@@ -248,12 +249,18 @@ func (c *caseRun) poll(cond func() bool) bool {
 		if cond() {
 			return true
 		}
-		if spin < 64 {
+		if spin < 8 {
 			runtime.Gosched()
 			continue
 		}
 		if time.Now().After(deadline) {
 			c.timeout = true
+			q := c.pmm.VerifQueues()
+			c.logf("WATCHDOG: bounded wait expired; queues=%+v", q)
+			if os.Getenv("C13MGR_DEBUG") != "" {
+				buf := make([]byte, 1<<20)
+				fmt.Printf("WATCHDOG case=%d queues=%+v last=%v\n%s\n", c.i, q, c.log[max(0, len(c.log)-4):], buf[:runtime.Stack(buf, true)])
+			}
 			return false
 		}
 		time.Sleep(20 * time.Microsecond)
@@ -572,16 +579,16 @@ func (c *caseRun) judgeOneShotCompleted(a *arrival, g *gpbft.GMessage) {
 		c.run.Violation("C13 manager: CompleteMessage reported success without a message", c.witness(a, nil))
 		return
 	}
-	if g.Vote.Value.Key() != a.key {
-		c.run.Violation(fmt.Sprintf("C13 manager: CompleteMessage attached a chain whose key differs from the announced key (phase=%s)", a.slot.phase), c.witness(a, map[string]any{"attached": keyStr(g.Vote.Value.Key())}))
-		return
-	}
+	keyOK := g.Vote.Value.Key() == a.key
 	_, err := c.shared.P.ValidateMessage(c.ctx, g)
-	c.logf("arrival #%d %s key=%s completed on arrival -> one-shot=%s", a.id, a.slot, keyStr(a.key), class(err))
+	c.logf("arrival #%d %s key=%s completed on arrival (value=%s) -> one-shot=%s", a.id, a.slot, keyStr(a.key), keyStr(g.Vote.Value.Key()), class(err))
+	if err == nil && !keyOK {
+		c.run.Violation(fmt.Sprintf("C13 manager: message completed by CompleteMessage with a chain whose key differs from the announced key was admitted (phase=%s)", a.slot.phase), c.witness(a, map[string]any{"attached": keyStr(g.Vote.Value.Key())}))
+	}
 	if a.ref == vmsg.Valid {
 		c.cnt["roundtrips_checked"]++
 		if !msgEqual(g, a.orig) {
-			c.run.Violation(fmt.Sprintf("C13 manager: message completed by CompleteMessage differs from the original message that was stripped (phase=%s)", a.slot.phase), c.witness(a, nil))
+			c.run.Violation(fmt.Sprintf("C13 manager: message completed by CompleteMessage differs from the original message that was stripped (phase=%s)", a.slot.phase), c.witness(a, map[string]any{"attached": keyStr(g.Vote.Value.Key())}))
 		}
 	}
 }
@@ -611,7 +618,7 @@ func (c *caseRun) arrive(orig *gpbft.GMessage, desc string, flow int) *arrival {
 	}
 	inst := a.slot.inst
 	lenBefore := 0
-	if c.cfg.Sync {
+	if c.cfg.Sync && c.peeks {
 		_, _, lenBefore = c.pmm.VerifPeekBuffered(inst, a.slot.sender, a.slot.round, a.slot.phase)
 	}
 	q := c.pmm.VerifQueues()
@@ -646,7 +653,7 @@ func (c *caseRun) arrive(orig *gpbft.GMessage, desc string, flow int) *arrival {
 	}
 	c.logf("arrival #%d %s key=%s (%s) -> buffered (equivocates with arrival %d)", a.id, a.slot, keyStr(a.key), a.desc, a.equivOf)
 	if c.cfg.Sync {
-		if !c.barrier() {
+		if !c.barrier() || !c.peeks {
 			return a
 		}
 		got, found, lenAfter := c.pmm.VerifPeekBuffered(inst, a.slot.sender, a.slot.round, a.slot.phase)
@@ -705,7 +712,7 @@ func (c *caseRun) discoverable(inst uint64) []*arrival {
 
 func (c *caseRun) notify(inst uint64, chain *gpbft.ECChain, kind string) {
 	K := chain.Key()
-	if c.cfg.Sync {
+	if c.cfg.Sync && c.peeks {
 		// pattern: an evicted message announced K, and the same position now holds a message announcing another key
 		hit := false
 		for _, a := range c.arrivals {
@@ -1063,11 +1070,11 @@ func genTarget(rng *rand.Rand, inst uint64) gpbft.Instant {
 	return t
 }
 
-func runCase(run *vkit.Run, i int) (cnt map[string]int64, status string) {
+func runCase(run *vkit.Run, i int, peeks bool) (cnt map[string]int64, status string) {
 	seed := run.SubSeed(int64(i))
 	rng := rand.New(rand.NewSource(seed))
 	c := &caseRun{i: i, run: run, rng: rng, aux: rand.New(rand.NewSource(seed ^ 0x5eed)), cnt: map[string]int64{}, byPtr: map[*gpbft.PartialGMessage]*arrival{},
-		model: map[uint64]*instModel{}, pools: map[uint64][]slotSpec{}, maxBroadcastInst: -1}
+		model: map[uint64]*instModel{}, pools: map[uint64][]slotSpec{}, maxBroadcastInst: -1, peeks: peeks}
 	cnt = c.cnt
 	lookback := uint64(2 + rng.Intn(4))
 	c.first = uint64(rng.Intn(1000))
@@ -1087,6 +1094,11 @@ func runCase(run *vkit.Run, i int) (cnt map[string]int64, status string) {
 		Sync:         rng.Intn(100) < 72,
 		Scripted:     rng.Intn(100) < 35,
 		Ops:          30 + rng.Intn(50),
+	}
+	if !peeks {
+		// race detector: huge allocations (zstd tables, preallocated validator cache) cost seconds of shadow-memory work each
+		c.cfg.Compression = false
+		c.cfg.ValCache = min(c.cfg.ValCache, 64)
 	}
 	if c.cfg.Scripted && c.cfg.Cap > 5 {
 		c.cfg.Cap = pick(rng, 1, 2, 3)
@@ -1225,21 +1237,28 @@ func runCase(run *vkit.Run, i int) (cnt map[string]int64, status string) {
 	return cnt, ""
 }
 
-func TestCheck(t *testing.T) {
+func TestCheck(t *testing.T) { runAll(t, "manager", true, 300, 20000) }
+
+// TestRace is the same workload under the race detector (part "manager-race"):
+// the manager's event loop, the chain exchange goroutines and the validating
+// goroutine run concurrently; residency peeks are off.
+func TestRace(t *testing.T) { runAll(t, "manager-race", false, 150, 4000) }
+
+func runAll(t *testing.T, part string, peeks bool, quick, thorough int) {
 	_ = logging.SetLogLevel("*", "fatal")
-	run := vkit.New("C13", "manager", "exploration")
+	run := vkit.New("C13", part, "exploration")
 	run.SetRule("each case is one seeded operation sequence against a started production PartialMessageManager (buffer capacity from {1,2,3,5,25000}, queue sizes, chain-exchange limits and compression varied, manifest.Validate passing) with a real gpbft.Participant as validator: partial messages (production ToPartialGMessage of factory messages of every phase, equivocations at the same sender/instance/round/phase, rebroadcasts, justified messages, bottom values, 36 corruption operators) go through PartiallyValidateMessage and BufferPartialMessage (or the production order CompleteMessage first); chains are announced through NotifyChainDiscovered (announced chain, prefix, extension, other values, other instances, repeats, bottom), the node's own BroadcastChain and remote chain-exchange messages; direct CompleteMessage, RemoveMessagesBeforeInstance and instance changes of the participant are interleaved; everything the manager emits goes through FullyValidateMessage. 35% of the cases embed the shape announce-K / fill the buffer / same position announces K' / discover K. distinct non-trivial = distinct (path, phase, capacity, message kind, two-stage verdict, one-shot verdict, key consistency, equivocation, earlier eviction) combinations of judged completed messages")
 	run.Assume("stand-in signatures (vsig)", "one mocknet host per case, no remote peers; remote chain-exchange messages are injected through the validator and the subscription loop's caching call",
 		"quiescence of the manager's event loop is established with a no-op sentinel removal request and queue lengths read through an expose-only accessor; residency in the LRU buffer is read with lru.Peek while the loop is idle",
 		"completeness (a valid buffered message whose chain was discovered is emitted) is judged only in sync-mode cases whose completed-messages channel cannot overflow, only for instances whose number of simultaneously occupied positions never exceeded the buffer capacity, and never for messages removed with their instance")
-	n := run.N(300, 20000)
+	n := run.N(quick, thorough)
 	type res struct {
 		cnt    map[string]int64
 		status string
 	}
 	results := make([]res, n)
 	body := func(i int) {
-		cnt, status := runCase(run, i)
+		cnt, status := runCase(run, i, peeks)
 		if run.Case >= 0 {
 			results[0] = res{cnt, status}
 			return
@@ -1278,15 +1297,20 @@ func TestCheck(t *testing.T) {
 			run.Inconclusive("watchdog")
 		}
 		floors := map[string]int64{
-			"messages_buffered":                                            4 * nn,
-			"equivocations_buffered":                                       nn / 2,
-			"evictions_forced":                                             nn / 4,
-			"chains_discovered_matching_an_announcement":                   nn,
-			"completed_drained":                                            nn,
-			"admitted":                                                     nn / 2,
-			"rejected_by_full_validation":                                  nn / 50,
-			"completeness_judged":                                          nn / 4,
+			"messages_buffered":                          4 * nn,
+			"equivocations_buffered":                     nn / 2,
+			"evictions_forced":                           nn / 4,
+			"chains_discovered_matching_an_announcement": nn,
+			"completed_drained":                          nn,
+			"admitted":                                   nn / 2,
+			"rejected_by_full_validation":                nn / 50,
+			"completeness_judged":                        nn / 4,
 			"discoveries_with_evicted_announcer_and_resident_equivocation": nn/40 + 2,
+		}
+		if !peeks {
+			delete(floors, "evictions_forced")
+			delete(floors, "discoveries_with_evicted_announcer_and_resident_equivocation")
+			floors["instances_with_capacity_exceeded"] = nn / 4
 		}
 		var low []string
 		for k, f := range floors {
